@@ -58,6 +58,7 @@ def run(tier, seed, rep):
                           dict(definition=d, event=ev, tlc=text, files={"def.rs": files.get(d["id"], "") if d else ""}))
         name, res, consts = mc.result()
         rep.add_model(name, res, consts)
+    evs = [e for e in evs if e.get("op") != "panic"]      # PANIC_FILTER: statistics only (panic events were judged by TLC above)
     rep.cov["programs"] = len(defs) - len(failed)
     rep.cov["evaluations"] = len(evs)
     rep.cov["distinct_nontrivial"] = len({(e["def"], e["call"], e["from"], e["k"], e["v"], tuple(e["slots"]), tuple(e.get("mask", []))) for e in evs})
